@@ -31,7 +31,7 @@ func (prop) Rule() string {
 func (prop) Assumptions() []string {
 	return []string{
 		"the real parser (ast.ParseLambda) is trusted to build the AST the reference interprets (checked separately by C13)",
-		"not asserted because the documentation does not fix them: float->int conversions out of int64 range, mixed int/float comparison beyond 2^53, strSubstring with stop==len, eager evaluation of an unselected failing if() branch, int(duration), duration(string), humanBytes text, rand/now values; sigma is compared with relative tolerance 1e-9",
+		"not asserted because the documentation does not fix them: float->int conversions out of int64 range, mixed int/float comparison beyond 2^53, strSubstring with stop==len, eager evaluation of an unselected failing if() branch, int(duration), duration(string), humanBytes text, rand/now values; sigma is compared with relative tolerance 1e-9 and not judged for ill-conditioned samples (max |x| / stddev > 1e4), where rounding decides the digits of the quotient",
 		"at most one call site per stateful function per expression",
 	}
 }
